@@ -80,6 +80,9 @@ inductive ACall where
   | loc (fn : String)
   | sup (parent : Option String) (fn : String)
   | fp (fn : String)
+  | stashSup (parent : Option String) (fn : String)   -- `(: A::f() :)` is made and stored, not evaluated
+  | stashLoc (fn : String)                            -- `(: f() :)` is made and stored
+  | runStash                                          -- the stored functional of this object is evaluated here
   deriving Repr, BEq
 
 structure AFn where
@@ -194,14 +197,19 @@ structure Run where
   vars : List Int
   evs : List Ev       -- newest first
   ok : Bool
+  /-- the stored functional: program of the object that made it, the path (from that program) to the level that made
+      it, and the call it makes.  A functional belongs to the place it was written in: whoever evaluates it, and
+      whenever, its `::` means the inherits of ITS level and the function it reaches runs on the variables of ITS copy. -/
+  stash : Option (Nat × List Nat × ACall) := none
 
 /-- run the body of `fn` as defined in the program at the end of `path` (from the object's program T) -/
-def runFn (g : AGraph) (T : Nat) : Nat → List Nat → String → List Int → List Int → List Ev → Run
-  | 0, _, _, _, vars, evs => { vars, evs, ok := false }
-  | fuel + 1, path, fn, actual, vars, evs =>
+def runFn (g : AGraph) (T : Nat) : Nat → List Nat → String → List Int → List Int → List Ev →
+    Option (Nat × List Nat × ACall) → Run
+  | 0, _, _, _, vars, evs, stash => { vars, evs, ok := false, stash }
+  | fuel + 1, path, fn, actual, vars, evs, stash =>
     let p := endOf g T path
     match g[p]?.bind (fun P => (P.fns.find? (fun f => f.name == fn && f.isDef)).map (fun f => (P, f))) with
-    | none => { vars, evs := .err :: evs, ok := false }
+    | none => { vars, evs := .err :: evs, ok := false, stash }
     | some (P, f) =>
       let vi := varIndex g T path
       let evs := Ev.run P.name fn (vars.getD vi 0) :: evs
@@ -210,15 +218,29 @@ def runFn (g : AGraph) (T : Nat) : Nat → List Nat → String → List Int → 
       let vars := if P.hasW then vars.set (vi + 1) (codeOf P.name fn + 5000) else vars
       f.calls.foldl (fun (r : Run) c =>
         if !r.ok then r else
-        let target : Option (List Nat × String) :=
+        -- the call that is made now, and the level it was written in
+        let made : Option (List Nat × ACall) × Option (Nat × List Nat × ACall) :=
           match c with
-          | .loc n | .fp n => (resolve g.toS T n).map (fun pth => (pth, n))
-          | .sup par n => (resolveSuper g p par n).map (fun pth => (path ++ pth, n))
-        match target with
-        | none => { r with evs := .err :: r.evs, ok := false }
-        | some (pth, n) =>
-          let a := match c with | .fp _ => fpArgs | _ => localArgs
-          runFn g T fuel pth n a r.vars r.evs) { vars, evs, ok := true }
+          | .stashSup par n => (none, some (T, path, .sup par n))
+          | .stashLoc n => (none, some (T, path, .loc n))
+          | .runStash =>
+            (match r.stash with
+             | some (owner, cpath, cc) => if owner == T then (some (cpath, cc), none) else (none, r.stash)   -- fetched once
+             | none => (none, r.stash))
+          | c => (some (path, c), r.stash)
+        match made with
+        | (none, st) => { r with stash := st }
+        | (some (cpath, cc), st) =>
+          let target : Option (List Nat × String) :=
+            match cc with
+            | .loc n | .fp n => (resolve g.toS T n).map (fun pth => (pth, n))
+            | .sup par n => (resolveSuper g (endOf g T cpath) par n).map (fun pth => (cpath ++ pth, n))
+            | _ => none
+          match target with
+          | none => { r with evs := .err :: r.evs, ok := false, stash := st }
+          | some (pth, n) =>
+            let a := match cc with | .fp _ => fpArgs | _ => localArgs
+            runFn g T fuel pth n a r.vars r.evs st) { vars, evs, ok := true, stash }
 
 /-- one object per program file; labels of the case name them -/
 structure SObj where
@@ -229,6 +251,7 @@ structure SSt where
   objs : List SObj := []
   labels : List (String × Nat) := []
   evs : List Ev := []            -- newest first
+  stash : Option (Nat × List Nat × ACall) := none
 
 def SSt.obj? (s : SSt) (p : Nat) : Option SObj := s.objs.find? (·.prog == p)
 
@@ -265,8 +288,8 @@ def callOn (g : AGraph) (s : SSt) (c : Caller) (p : Nat) (fn : String) (args : L
     | some path =>
       if !(allowed c (effMods g fn p path)) then (.absent, s)
       else
-        let r := runFn g p 64 path fn args ob.vars s.evs
-        let s := { (s.setVars p r.vars) with evs := r.evs }
+        let r := runFn g p 64 path fn args ob.vars s.evs s.stash
+        let s := { (s.setVars p r.vars) with evs := r.evs, stash := r.stash }
         let defProg := ((g[endOf g p path]?).map (·.name)).getD "?"
         (if r.ok then .ran s!"\"{defProg}:{fn}\"" else .failed, s)
 
